@@ -73,6 +73,8 @@ def gen_vec(rng, kind, tok):
         return [t, ("rep", 1 << 20, b"d")]
     if kind == "spaces":
         return [t, b" ", b"  x  ", b"\t\n", b"a b"]
+    if kind == "percent":
+        return [t, b"+%s", b"100%%", b"%d %x %c %5$s", b"%", t + b"%10s|%n"]
     raise ValueError(kind)
 
 
@@ -93,7 +95,7 @@ def gen_env(rng, kind, tok):
     raise ValueError(kind)
 
 
-ARGV_KINDS = ["null", "empty", "emptystr", "a0null", "one", "few", "allbytes", "spaces", "many", "s4095", "s4096"]
+ARGV_KINDS = ["null", "empty", "emptystr", "a0null", "one", "few", "allbytes", "spaces", "percent", "many", "s4095", "s4096"]
 ARGV_BIG = ["s64k", "s1m", "many"]
 ENV_KINDS = ["null", "empty", "one", "few", "a0null", "many"]
 PATH_KINDS = ["tok", "empty", "relative", "long", "8bit"]
@@ -274,98 +276,79 @@ def check_call(c, evs, path, argv, envp, nolib_end, F, stats):
         stats["logged_before_real"] += 1
 
 
-def run_batch(arg):
-    bld, batch, bi, root = arg
-    work = os.path.join(root, "b%04d" % bi)
-    os.makedirs(work, exist_ok=True)
-    os.chmod(work, 0o777)
-    cfgs = configs(work)
-    logf = os.path.join(work, "log")
-    open(logf, "a").close()
-    os.chmod(logf, 0o666)
-    F = Findings(PROP)
-    stats = dict(real_events=0, mtx_seen=0, repo_seen=0, real_success=0, returns=0, natural_failures=0, logged_before_real=0,
-                 inconclusive=0)
-    s = Script()
-    s.sinkfile(logf)
-    meta = {}
-    ref = Script()
-    ref.raw("nosinks")
-    for c in batch:
-        cs, path, argv, envp = case_script(c, work, cfgs)
-        s.lines += cs.lines
-        meta[c["id"]] = (c, path, argv, envp)
-        if c["real"] and c["pk"] != "vt":
-            rs, _, _, _ = case_script(c, work, cfgs, with_conf=False)
-            ref.lines += rs.lines
-    res = run_vdrive(bld, s.text(), work, timeout=300)
-    if res.timeout:
-        F.inconclusive_case("batch %d timed out" % bi)
-        stats["inconclusive"] += len(batch)
-        return F, stats
-    if res.rc != 0:
-        raise Harness("vdrive batch exited %s: %s" % (res.rc, res.stderr[-300:]))
-    nolib = {}
-    if len(ref.lines) > 1:
-        r2 = run_vdrive(bld, ref.text(), os.path.join(work, "ref"), timeout=300,
-                        env_extra={"LD_PRELOAD": os.path.join(HBIN, "libvrec.so")})
-        for e in r2.events:
-            if e["ev"] == "END":
-                nolib[e["id"]] = e
-    byid = {}
-    for e in res.events:
-        k = e.get("id", e.get("tag"))
-        if e["ev"] == "VTRUE":
-            continue
-        byid.setdefault(k, []).append(e)
-    # VTRUE lines carry the pid of the forked child: match through BEGIN.pid
-    pid2id = {e["pid"]: e["id"] for e in res.events if e["ev"] == "BEGIN"}
-    for e in res.events:
-        if e["ev"] == "VTRUE" and e["pid"] in pid2id:
-            byid[pid2id[e["pid"]]].append(e)
-    for cid, (c, path, argv, envp) in meta.items():
-        check_call(c, byid.get(cid, []), path, argv, envp, nolib.get(cid), F, stats)
-    rmwork(work)
-    return F, stats
+def script_fn(c, B, s):
+    if not hasattr(B, "cfgs"):
+        B.cfgs = configs(B.work)
+    solo = c["cfg"] == "devtty" or c["real"]            # a controlling tty / a really replaced image cannot share a process
+    B.begin_case(s, c, solo=solo)
+    cs, path, argv, envp = case_script(c, B.work, B.cfgs)
+    s.lines += [l for l in cs.lines if not l.startswith("fork ") and l != "endfork"]
+    B.end_case(s, c)
+
+
+def ref_script_fn(c, B, s):
+    if not hasattr(B, "cfgs"):
+        B.cfgs = configs(B.work)
+    cs, _, _, _ = case_script(c, B.work, B.cfgs, with_conf=False)
+    s.lines += cs.lines
+
+
+def ref_check_fn(c, evs, B):
+    en = [e for e in evs if e["ev"] == "END"]
+    B.st.setdefault("_ref", []).append((c["id"], en[0]["ret"], en[0]["errno"]) if en else (c["id"], None, None))
+
+
+_REF = {}
+
+
+def check_fn(c, evs, B):
+    if not hasattr(B, "cfgs"):
+        B.cfgs = configs(B.work)
+    import random
+    rng = random.Random(c["sub"])
+    tok = c["tok"]
+    path = os.path.join(B.work, "vt-" + tok).encode() if c["pk"] == "vt" else gen_path(c["pk"], tok)
+    argv = gen_vec(rng, c["ak"], tok)
+    envp = gen_env(rng, c["ek"], tok)
+    stats = {}
+    for k in ("real_events", "mtx_seen", "repo_seen", "real_success", "returns", "natural_failures", "logged_before_real"):
+        stats[k] = 0
+    ref = _REF.get(c["id"])
+    check_call(c, evs, path, argv, envp, None if ref is None else dict(ret=ref[0], errno=ref[1]), B.F, stats)
+    for k, v in stats.items():
+        B.count(k, v)
 
 
 def main():
+    from vlib.batch import run_cases
     t0 = time.time()
     tr = tier()
     ensure_harness()
     bld = vbuild.build("plain")
     cases = make_cases(tr)
-    root = mkwork("c01")
-    bs = 40
-    batches = [(bld, cases[i:i + bs], i // bs, root) for i in range(0, len(cases), bs)]
-    results = pmap(run_batch, batches, 16)
-    F = Findings(PROP)
-    tot = {}
-    for f, st in results:
-        for k, v in f.viol.items():
-            if k in F.viol:
-                F.viol[k]["count"] += v["count"]
-            else:
-                F.viol[k] = v
-        F.inconclusive += f.inconclusive
-        for k, v in st.items():
-            tot[k] = tot.get(k, 0) + v
-    rmwork(root)
+    # reference results of natural failures: the same calls with only the recorder preloaded (no Snoopy)
+    nat = [c for c in cases if c["real"] and c["pk"] != "vt"]
+    _, rt = run_cases(PROP, bld, nat, ref_script_fn, ref_check_fn, batch_size=50, preload=[os.path.join(HBIN, "libvrec.so")], mtx=False)
+    for cid, r, e in rt.get("_ref", []):
+        if r is not None:
+            _REF[cid] = (r, e)
+    F, tot = run_cases(PROP, bld, cases, script_fn, check_fn, batch_size=50)
     n = len(cases)
-    if tot.get("real_events", 0) == 0 or tot.get("mtx_seen", 0) == 0:
+    if (tot.get("real_events", 0) == 0 or tot.get("mtx_seen", 0) == 0) and F.n_unlisted() == 0:
         raise Harness("monitor observed no REAL events / no mutex samples")
-    if tot.get("inconclusive", 0) > n // 100:
-        raise Harness("too many inconclusive cases: %d" % tot["inconclusive"])
+    inconc = tot.get("inconclusive", 0) + tot.get("inconclusive_not_run", 0)
+    if (inconc > n // 100) and F.n_unlisted() == 0:
+        raise Harness("too many inconclusive cases: %d" % inconc)
     distinct = len({(c["cfg"], c["fn"], c["pk"], c["ak"], c["ek"], c["ret"], c["real"]) for c in cases})
     rc = F.report()
     samples = [dict(cfg=c["cfg"], fn=c["fn"], path=c["pk"], argv=c["ak"], envp=c["ek"],
                     outcome="real" if c["real"] else [c["ret"], c["err"]]) for c in cases[:3] + cases[-3:]]
     write_evidence(PROP, "exploration", tr, dict(
         evaluations=n, distinct_nontrivial=distinct,
-        rule="one wrapped call per case; distinct = distinct (config, function, path shape, argv shape, envp shape, return value, real/scripted) tuples (errno not counted); "
+        rule="one wrapped call per case; consecutive cases share one process in groups of 1..8 (so execv/execve, configurations and outcomes alternate inside one process); distinct = distinct (config, function, path shape, argv shape, envp shape, return value, real/scripted) tuples (errno not counted); "
              "shapes/configs/outcomes enumerated in checks/c01.py, combined at random from VERIF_SEED plus every errno 1..133",
         samples=samples, monitor_events=tot, configs=sorted(configs("/x").keys()),
-        build=dict(variant="plain", treehash=bld.treehash), inconclusive=len(F.inconclusive),
+        build=dict(variant="plain", treehash=bld.treehash), inconclusive=inconc,
         violation_keys=sorted(F.viol.keys())),
         time.time() - t0, F.n_unlisted(),
         ["libvrec.so is the next execv/execve definition after libsnoopy.so in symbol order",
